@@ -147,7 +147,8 @@ def run_plan(plan, work: Path, hashseed="0", tag="p"):
     pf.write_text(json.dumps(plan))
     env = dict(os.environ, PYTHONHASHSEED=hashseed, TQDM_DISABLE="1")
     try:
-        p = subprocess.run([common.PY, "-m", "verif.props.c17_child", str(pf)], capture_output=True, text=True, timeout=300, env=env, cwd=str(common.ROOT))
+        p = subprocess.run([common.PY, "-m", "verif.props.c17_child", str(pf)], capture_output=True, text=True, timeout=300, env=env, cwd=str(common.ROOT),
+                           stdin=subprocess.DEVNULL)
     except subprocess.TimeoutExpired:
         return {"error": "timeout", "digests": {}}
     for line in p.stdout.splitlines()[::-1]:
